@@ -427,6 +427,7 @@ def check(ctx, report):
             report.add('C14.R4', f.construct + '@return', '_asdict can fall off its end (returns None)')
     finite_numbers(ctx, report)
     markdown_yields_text(ctx, report)
+    list_concatenation(ctx, report)
     report.floor('C14.R1', 20, 'iteration obligations')
     report.floor('C14.R4', 15, '_asdict overrides')
 
@@ -622,3 +623,43 @@ def markdown_yields_text(ctx, report, RULE='C14.R11'):
                        '`return %s`: the second component is not text on every path (it is whatever the expression yields - a Base64Data, a Url, a number): '
                        'as_markdown() hands it to the caller as it is' % ast.unparse(n.value)[:60])
     report.floor(RULE, 20, 'Markdown functions')
+
+
+# ---- R12: sequences joined with + are of one kind ------------------------------------------------------------------------------
+
+def list_concatenation(ctx, report, RULE='C14.R12'):
+    """``[x] + self.items``: a field validated with ``deep_iterable`` (and no converter) holds any iterable the caller gave - a
+    tuple, a set - and ``list + tuple`` raises TypeError inside _asdict / compose, i.e. while the report is generated.  Every ``+``
+    between a list display and such a field has to go through ``list(...)``."""
+    model = ctx.model
+    report.rule(RULE, 'a list is only concatenated with a field that is known to be a list (deep_iterable admits tuples and sets)')
+    n_sites = 0
+    for c in model.all_classes:
+        if not hasattr(c, 'attrs_fields') or not c.has_attrs():
+            continue
+        loose = {}
+        for fld in c.attrs_fields():
+            val = ast.unparse(fld.validator_node) if fld.validator_node is not None else ''
+            if 'deep_iterable' in val and 'iterable_validator' not in val and fld.converter_node is None:
+                loose[fld.name] = fld
+        if not loose:
+            continue
+        for name, f in c.methods.items():
+            for n in ast.walk(f.node):
+                if not (isinstance(n, ast.BinOp) and isinstance(n.op, ast.Add)):
+                    continue
+                for a, b in ((n.left, n.right), (n.right, n.left)):
+                    if isinstance(a, (ast.List, ast.ListComp)) and isinstance(b, ast.Attribute) and isinstance(b.value, ast.Name) and b.value.id == 'self' and b.attr in loose:
+                        n_sites += 1
+                        report.count(RULE)
+                        report.touch(f)
+                        report.add(RULE, '%s@concat[%s]' % (f.construct, b.attr),
+                                   '`%s`: %s.%s is validated with deep_iterable only, so it may be a tuple or a set; list + tuple raises TypeError (%s is what '
+                                   'as_json / as_markdown / compose run)' % (ast.unparse(n)[:60], c.name, b.attr, f.name))
+    # instances: the loosely validated fields looked at
+    for c in model.all_classes:
+        if hasattr(c, 'attrs_fields') and c.has_attrs():
+            for fld in getattr(c, 'own_fields', []):
+                if fld.validator_node is not None and 'deep_iterable' in ast.unparse(fld.validator_node):
+                    report.count(RULE)
+    report.floor(RULE, 20, 'deep_iterable validated fields')
